@@ -266,7 +266,18 @@ def w_align(ctx, rng, i):
                 s = ms.TriMesh(sp_, trilist=np.asarray(gm.trilist).astype(np.uint8))
                 tg = ms.PointCloud(sp_ @ (np.eye(2) + rng.uniform(-0.15, 0.15, (2, 2))).T + rng.uniform(-3, 3, 2) + rng.normal(scale=0.05, size=sp_.shape))
                 opts["compact_trilist"] = True
-            if rng.random() < 0.35:
+            if not compact and rng.random() < 0.2:
+                # the target as integer pixel positions in the compact type an annotation tool stores them in
+                udt = [np.uint16, np.int16, np.uint8][rng.integers(0, 3)]
+                span_ = float(np.ptp(tg.points, axis=0).max())
+                kk_ = (200.0 if udt is np.uint8 else float(rng.uniform(300, 3000))) / max(span_, 1e-9)
+                pu_ = np.round((tg.points - tg.points.min(0)) * kk_ + 3)
+                a2_, b2_ = gen.tri_area2(s.points, np.asarray(s.trilist)), gen.tri_area2(pu_, np.asarray(s.trilist))
+                if pu_.max() < np.iinfo(udt).max and (np.sign(a2_) == np.sign(b2_)).all() and np.abs(b2_).min() > 4.0:
+                    tg = ms.PointCloud(pu_.astype(udt))
+                    opts["integer_target"] = np.dtype(udt).name
+                    ctx.bump("warps_onto_integer_pixel_targets")
+            elif rng.random() < 0.35:
                 # the same mesh in any unit (metres for a sub-millimetre object ... map coordinates)
                 unit = 10.0 ** rng.uniform(-6, 3)
                 s = ms.TriMesh(s.points * unit, trilist=s.trilist)
